@@ -16,7 +16,7 @@ CLAIMS = {
          "Proved: pull_messages moves the first n backlog messages into the lease table within one actor turn, with fresh consecutive ack ids (all ids in use are below the counter, the counter strictly increases); the only exits from the lease table are ack, modify(None), expiry with deadline <= now and delete.",
          "Trusted: one actor task drains the mailbox, so turns do not interleave (tokio mpsc + single task, A-GLUE); fewer than 2^64 deliveries per subscription (A-ARITH)."),
  "C04": ("proof",
-         "Proved for all instants and all i32 ack_deadline_seconds: AckDeadline::new(t) lies in [t, t + 100 ms) (after fix d51d4eb; the pinned tree was up to 999 ns early: known_findings.jsonl), pull gives deadline = now + D, D = max(seconds, 10) s, take_expired returns exactly the leases with deadline <= now, next_expiration is the minimum deadline, handle_expired_messages requeues exactly those.",
+         "Proved for all instants and all i32 ack_deadline_seconds: AckDeadline::new(t) lies in [t, t + 1 s) (the code rounds to a 100 ms grid; the contract only demands the statement's sub-second slack) (after fix d51d4eb; the pinned tree was up to 999 ns early: known_findings.jsonl), pull gives deadline = now + D, D = max(seconds, 10) s, take_expired returns exactly the leases with deadline <= now, next_expiration is the minimum deadline, handle_expired_messages requeues exactly those.",
          "Trusted: that tokio wakes the actor at sleep_until(min deadline) and the Notify re-arming in poll_next_expired (async, A-GLUE); Instant stand-in = u64 nanoseconds, EPOCH not later than any now() (A-STUB); clock below 2^60 ns (A-ARITH)."),
  "C05": ("proof",
          "Proved: seconds -> Option<Duration> classification over all i32 (<0 INVALID_ARGUMENT, 0 nack, 1..599, >=600 capped); per-pair body of parse_deadline_modifications (lifted region) yields exactly the modification with deadline in [now+N, now+N+100ms) or the error; OutstandingMessageTracker::modify equals the fold of the per-modification spec in request order (old expiry key removed, new inserted, nacked lease returned), modify_deadline appends the nacked messages to the backlog in the same turn; unknown ids are skipped.",
@@ -29,7 +29,7 @@ CLAIMS = {
          "Trusted: prost / serde_json / base64 encoders, Display of u64 (A-LIB, A-STR: uninterpreted injective functions); Bytes and SystemTime stand-ins; u32 counter wrap (A-ARITH)."),
  "C10": ("proof of the map operations (scoped)",
          "Proved: State::create_topic / State::create_subscription succeed exactly when the name is absent, then insert exactly that name with a fresh increasing internal id, and leave the state unchanged on ALREADY_EXISTS; the same-project rule is decided before any state access; delegate delete is map.remove; effective ack deadline = max(seconds, 10) for all i32; TopicActor::attach_subscription never fails (the create path registers the name before the attach and has no rollback, so 'a failed create leaves nothing behind' rests on this); read-back (bundle B6): parse_push_config stores the request's endpoint (trimmed), attributes and oidc token, map_to_subscription_resource reports the stored name, topic, whole seconds of the ack deadline and push configuration, and the two compose to the identity (lemma_push_config_roundtrip, lemma_ack_deadline_roundtrip: reported deadline = max(seconds, 10) for every i32).",
-         "NOT covered: linearizability across threads (parking_lot::RwLock trusted; that each wrapper holds the guard around exactly one State call is structural), 'later requests observe it' through the actors, NOT_FOUND mapping in the async handlers."),
+         "The lookup helpers of the handlers (get_subscription, get_topic_internal, subscription_not_found, topic_not_found, conflict) are under contract in B6: an absent name is answered with NOT_FOUND. NOT covered: linearizability across threads (parking_lot::RwLock trusted; that each wrapper holds the guard around exactly one State call is structural), 'later requests observe it' through the actors, the remaining status mapping inside the async handlers (gRPC scenario `namespace`)."),
  "C11": ("proof of the set algebra (scoped)",
          "Proved: topic actor remove_subscription removes exactly the named entry, delete clears the set, sets deleted and is idempotent, attach never overwrites; subscription delete empties backlog and leases and sets deleted, after which post/pull/ack/modify are no-ops.",
          "NOT covered: order of effects across the two actors, liveness of the Weak<Topic>, that the Weak<Topic> is dead exactly when the topic is deleted (the mapping itself is under contract in B6: live topic -> its name, dead -> the deleted marker), re-creation not re-attaching (call-graph fact)."),
@@ -37,7 +37,7 @@ CLAIMS = {
          "Proved: Paging::new normalises the size (0 -> 20, > 1000 -> 1000), next offset = offset + page length and none for an empty page, negative size is INVALID_ARGUMENT, an issued token decodes to its offset, anything else is INVALID_ARGUMENT or some offset; walk lemma (unbounded list length): following offsets from the first page yields the list exactly once in order with pages <= size, and a hostile offset yields a valid (possibly empty) page.",
          "Assumed contracts (listed in trusted_base): PageToken::encode/try_decode (base64 + to_ne_bytes; Verus cannot specify const-generic array lengths; a complete Kani harness ran out of memory at 30 GB, so the codec is swept by the bounded stand-in `tokens` on the mounted source file), <[T]>::sort_unstable. The sort + skip/take/collect tails of list_topics and list_subscriptions_in_project are under contract (window == page_items); their filter/collect heads and the window of TopicActor::list_subscriptions use the `cloned` adapter (no vstd spec) and are covered by the bounded stand-ins only; creation order = order of internal ids (C10)."),
  "C15": ("proof for the size bound (scoped for emptiness)",
-         "Proved: |pull result| = pull_count(backlog, max) <= max(cap, 1) with cap <= max_count, including the `usize as u16` truncation of the backlog length (bit-vector lemma); conversion lemma over all i32 m >= 1: the batch never exceeds m even where `m as u16` wraps; streaming limit: try_into::<u16> rejects out-of-range values with INVALID_ARGUMENT; pull returns empty iff the backlog is empty.",
+         "Proved: the batch of pull_messages has at most max_count messages (at most one when the 16-bit limit is 0), never more than the backlog, and is empty only when the backlog is (contract clause `count_ok`; the exact count incl. the `usize as u16` truncation of the backlog length is a loop-level obligation); conversion lemma over all i32 m >= 1: such a batch never exceeds m even where `m as u16` wraps; streaming limit: try_into::<u16> rejects out-of-range values with INVALID_ARGUMENT; pull returns empty iff the backlog is empty.",
          "NOT covered by contracts: the unary wait loop / 5-minute timer (select!) and the wake-up of further waiting consumers when a full batch leaves messages behind (Notify; gRPC scenarios `pull_limits`, `two_waiters`, `stream_limits` stand in); the `as u16` cast site itself sits inside an async block (the lemma covers its arithmetic)."),
  "C17": ("proof per parser (scoped)",
          "Proved: every parser under contract is total and panic-free (no unwrap, slicing through checked get, all integer arithmetic overflow-checked), returns INVALID_ARGUMENT exactly on the malformed class; streaming control-message validation rejects inconsistent messages before any subscription call.",
